@@ -429,3 +429,88 @@ fn c14_k_day_to_week() {
 // unvalidated constructors for harnesses in other modules whose inputs are already constrained to valid dates
 pub fn mk_day(y: isize, m: usize, d: usize) -> SolarDay { SolarDay { month: SolarMonth { parent: AbstractTyme::new(), year: SolarYear { year: y }, month: m }, day: d } }
 pub fn mk_time(y: isize, m: usize, d: usize, h: usize, mi: usize, s: usize) -> SolarTime { SolarTime { day: mk_day(y, m, d), hour: h, minute: mi, second: s } }
+
+// C14: a week object is accepted exactly when index <= 5, start <= 6 and index < week count of the month (the count itself:
+// c14_k_solar_week_count; here an arbitrary answer of a stub)
+static mut WK_WC: usize = 7714;
+fn wk_week_count(_m: &SolarMonth, _start: usize) -> usize { unsafe { WK_WC } }
+#[kani::proof]
+#[kani::unwind(9)]
+#[kani::stub(alloc::fmt::format, stub_format)]
+#[kani::stub(SolarMonth::get_week_count, wk_week_count)]
+fn c14_k_solar_week_accept() {
+  let y: isize = kani::any(); let m: usize = kani::any(); let i: usize = kani::any(); let start: usize = kani::any(); let wc: usize = kani::any();
+  kani::assume(y >= 1 && y <= 9999 && m >= 1 && m <= 12 && wc >= 4 && wc <= 6);
+  unsafe { WK_WC = wc; }
+  let r = SolarWeek::new(y, m, i, start);
+  assert!(r.is_ok() == (i <= 5 && start <= 6 && i < wc), "accepted exactly when index <= 5, start <= 6 and index < week count");
+  if let Ok(ref w) = r { assert!(w.get_index() == i && w.get_year() == y && w.get_month() == m && w.start.get_index() == start, "components stored as given"); }
+  core::mem::forget(r);
+  kani::cover!(i == 5 && wc == 6 && start == 6, "solar_week_accept reachable");
+}
+
+// ---- C15: the commanding stem of a day (packed digit string decoded with str slicing and from_str): for every Jie month and
+// every day offset 0..=31 inside it, the (stem, slot, day index) handed to the constructors equals the classical allotment.
+// The governing term and the day offset are arbitrary answers of stubs (the term search is the C06 Verus unit).
+use crate::tyme::sixtycycle::{HideHeavenStem, HideHeavenStemDay};
+use crate::tyme::sixtycycle::verif_k::{rec_hide_from_index, rec_hide_day_new, H_ARGS};
+static mut HS_TI: isize = -7715;
+static mut HS_OFF: isize = -7716;
+static mut HS_BACK: usize = 7717;
+fn hs_get_term(_d: &SolarDay) -> SolarTerm { mk_term(2000, unsafe { HS_TI }, 0.0) }
+fn hs_term_next(t: &SolarTerm, n: isize) -> SolarTerm { unsafe { if n == -1 { HS_BACK += 1; } else { HS_BACK += 100; } } mk_term(t.get_year(), t.get_index() as isize + n, 0.0) }
+fn hs_term_jd(_t: &SolarTerm) -> JulianDay { JulianDay::from_julian_day(2451545.0) }
+fn hs_jd_solar_day(_j: &JulianDay) -> SolarDay { mk_day(2000, 1, 1) }
+fn hs_subtract(_a: &SolarDay, _b: SolarDay) -> isize { unsafe { HS_OFF } }
+macro_rules! commanding_stem_harness { ($name:ident, $ti:expr) => {
+  #[kani::proof]
+  #[kani::unwind(80)]
+  #[kani::stub(alloc::fmt::format, stub_format)]
+  #[kani::stub(SolarDay::get_term, hs_get_term)]
+  #[kani::stub(<SolarTerm as Tyme>::next, hs_term_next)]
+  #[kani::stub(SolarTerm::get_julian_day, hs_term_jd)]
+  #[kani::stub(JulianDay::get_solar_day, hs_jd_solar_day)]
+  #[kani::stub(SolarDay::subtract, hs_subtract)]
+  #[kani::stub(HideHeavenStem::from_index, rec_hide_from_index)]
+  #[kani::stub(HideHeavenStemDay::new, rec_hide_day_new)]
+  fn $name() {
+    let ti: isize = $ti; let off: isize = kani::any();
+    kani::assume(off >= 0 && off <= 31);
+    unsafe { HS_TI = ti; HS_OFF = off; HS_BACK = 0; }
+    let r = mk_day(2000, 6, 15).get_hide_heaven_stem_day();
+    core::mem::forget(r);
+    let kj = if ti % 2 == 1 { ti } else { spec::emod(ti as i64 - 1, 24) as isize };   // the Jie that opens the month
+    assert!(unsafe { HS_BACK } == if ti % 2 == 1 { 0 } else { 1 }, "a Qi steps back to its Jie, a Jie stays");
+    let mb = spec::emod(2 + spec::ediv(kj as i64 - 3, 2), 12);
+    let want = spec::commanding_stem(mb, off as i64);
+    let got = unsafe { H_ARGS };
+    assert!((got.0 as i64, got.1 as i64, got.2 as i64) == want, "(stem, slot, day index inside the slot) == the classical per-month allotment");
+    kani::cover!(off == 14, "commanding_stem reachable");
+  }
+} }
+// one harness per governing term (the packed string is then sliced at a concrete place and parsed by constant folding; the day
+// offset stays symbolic) - the symbolic-term form did not finish in 10 min
+commanding_stem_harness!(c15_k_commanding_stem_t00, 0);
+commanding_stem_harness!(c15_k_commanding_stem_t01, 1);
+commanding_stem_harness!(c15_k_commanding_stem_t02, 2);
+commanding_stem_harness!(c15_k_commanding_stem_t03, 3);
+commanding_stem_harness!(c15_k_commanding_stem_t04, 4);
+commanding_stem_harness!(c15_k_commanding_stem_t05, 5);
+commanding_stem_harness!(c15_k_commanding_stem_t06, 6);
+commanding_stem_harness!(c15_k_commanding_stem_t07, 7);
+commanding_stem_harness!(c15_k_commanding_stem_t08, 8);
+commanding_stem_harness!(c15_k_commanding_stem_t09, 9);
+commanding_stem_harness!(c15_k_commanding_stem_t10, 10);
+commanding_stem_harness!(c15_k_commanding_stem_t11, 11);
+commanding_stem_harness!(c15_k_commanding_stem_t12, 12);
+commanding_stem_harness!(c15_k_commanding_stem_t13, 13);
+commanding_stem_harness!(c15_k_commanding_stem_t14, 14);
+commanding_stem_harness!(c15_k_commanding_stem_t15, 15);
+commanding_stem_harness!(c15_k_commanding_stem_t16, 16);
+commanding_stem_harness!(c15_k_commanding_stem_t17, 17);
+commanding_stem_harness!(c15_k_commanding_stem_t18, 18);
+commanding_stem_harness!(c15_k_commanding_stem_t19, 19);
+commanding_stem_harness!(c15_k_commanding_stem_t20, 20);
+commanding_stem_harness!(c15_k_commanding_stem_t21, 21);
+commanding_stem_harness!(c15_k_commanding_stem_t22, 22);
+commanding_stem_harness!(c15_k_commanding_stem_t23, 23);
